@@ -401,6 +401,12 @@ class Engine:
             return Struct(mirmod.strip_generics(ty).split("::")[-1], ())
         if t.startswith("{alloc") or t.startswith("alloc"):
             return Opaque("alloc")
+        mt = re.match(r"^(PInt|NInt)::<(.*?)> \{\{", t)
+        if mt:
+            n = 0
+            for b_ in re.findall(r"B([01])", mt.group(2)):
+                n = n * 2 + int(b_)
+            return Struct("typenum", [n if mt.group(1) == "PInt" else -n])
         # float specials
         ng = t
         if re.search(r"(^|::)(f64|<impl f64>)::INFINITY$", ng) or ng.endswith("f64::INFINITY"):
@@ -577,6 +583,16 @@ class Engine:
         if isinstance(a, Enum) and isinstance(b, Enum) and op in ("Eq", "Ne"):
             r = a.variant == b.variant
             return r if op == "Eq" else not r
+        nan_a = isinstance(a, Opaque) and a.tag == "NaN"
+        nan_b = isinstance(b, Opaque) and b.tag == "NaN"
+        if (nan_a or nan_b) and (nan_a or is_scalar(a)) and (nan_b or is_scalar(b)):
+            # IEEE: NaN propagates through arithmetic, every ordered comparison with NaN is false
+            if op in ("Add", "Sub", "Mul", "Div", "Rem"):
+                return Opaque("NaN")
+            if op in ("Eq", "Lt", "Le", "Gt", "Ge"):
+                return False
+            if op == "Ne":
+                return True
         if not (is_scalar(a) and is_scalar(b)):
             raise Unsupported(f"binop {op} on {a!r}, {b!r}")
         conc = is_conc(a) and is_conc(b)
@@ -680,8 +696,8 @@ class Engine:
                 return z3.Not(a)
             raise Unsupported("Not on non-bool")
         if op == "Neg":
-            if is_conc(a):
-                return -a
+            if isinstance(a, Opaque) and a.tag == "NaN":
+                return a
             return -a
         raise Unsupported("unop " + op)
 
